@@ -17,6 +17,9 @@ def build(repo, findings):
     u.add(ex.item(r'^enum ExpansionPiece ', 'ExpansionPiece').r1(keep_derive=()).r11())
     u.add(ex.item(r'^struct WordField\(', 'WordField').r1(keep_derive=()).r11().resub(r'struct WordField\(Vec', 'struct WordField(pub Vec', 'R11', 'tuple field made visible'))
     u.add(ex.item(r'^struct Expansion ', 'Expansion').r1(keep_derive=()).r11().pub_fields())
+    wsrc = u.source('brush-parser/src/word.rs')
+    u.add(wsrc.item(r'^pub struct WordPieceWithSource ', 'WordPieceWithSource').r1(keep_derive=()))
+    u.add(wsrc.item(r'^pub enum WordPiece ', 'WordPiece').r1(keep_derive=()))
     u.prelude('std/utf8.rs')
     u.prelude('wordpiece/spec.rs')
     f = ex.item(r'^impl Default for Expansion ', 'impl Default for Expansion').r1()
